@@ -13,6 +13,7 @@ import (
 	"reflect"
 	"strconv"
 	"strings"
+	"sync/atomic"
 	"time"
 	"unsafe"
 
@@ -21,6 +22,7 @@ import (
 	"github.com/NethermindEth/juno/consensus/p2p"
 	"github.com/NethermindEth/juno/consensus/proposal"
 	"github.com/NethermindEth/juno/consensus/starknet"
+	consensusSync "github.com/NethermindEth/juno/consensus/sync"
 	"github.com/NethermindEth/juno/consensus/tendermint"
 	"github.com/NethermindEth/juno/consensus/types"
 	"github.com/NethermindEth/juno/consensus/types/actions"
@@ -126,6 +128,16 @@ func (in Input) String() string {
 		return fmt.Sprintf("%s:%d:%d:%d:%s", in.K, in.H, in.R, in.Sender+1, id)
 	case "t":
 		return fmt.Sprintf("t:%d:%d:%d", in.Step, in.H, in.R)
+	case "sb":
+		return fmt.Sprintf("sb:%d:%d:%d", in.H, in.Sender+1, in.Val)
+	case "se":
+		return "se"
+	case "pv", "pc":
+		id := strconv.FormatUint(in.Val, 10)
+		if in.Nil {
+			id = "nil"
+		}
+		return fmt.Sprintf("%s:%d:%d:%s", in.K, in.H, in.R, id)
 	}
 	return "?"
 }
@@ -152,6 +164,10 @@ type Cfg struct {
 	Me      int      `json:"me"`
 	C0      uint64   `json:"c0"`      // chain height at first boot
 	AppMode string   `json:"appmode"` // stable | fresh | store
+	// Sync: the driver runs with the real block fetcher and message extractor, TriggerSync actions are
+	// handed to it, and the pseudo-sender of consensus/sync carries the total voting power (as in
+	// consensus/mock.go)
+	Sync bool `json:"sync,omitempty"`
 	// everStored: values for which some process instance of this case held a build result (mode
 	// "store"), to recognise a validity answer that changed only because the store was lost.
 	everStored map[uint64]bool
@@ -177,7 +193,10 @@ func (c *Cfg) idx(a *A) int {
 	return i
 }
 
-func (c *Cfg) ValidatorVotingPower(_ types.Height, a *A) types.VotingPower {
+func (c *Cfg) ValidatorVotingPower(h types.Height, a *A) types.VotingPower {
+	if c.Sync && a != nil && *a == pseudoSender {
+		return c.TotalVotingPower(h)
+	}
 	if i := c.idx(a); i >= 0 {
 		return types.VotingPower(c.Powers[i])
 	}
@@ -274,6 +293,7 @@ func (a *app) committed(h uint64) { a.height, a.k = h+1, 0 }
 // Effect is one effect performed by the real driver, observed at a sink.
 type Effect struct {
 	Tok   string // same syntax as the Lean driver's effects
+	Pend  int    // number of un-flushed records when the effect was performed (harness' own count)
 	Call  int    // index of the state machine call whose actions were being executed
 	Input int    // script index of the input being processed (-1: replay / boot)
 }
@@ -294,6 +314,7 @@ type smCall struct {
 	Input   int
 	Replay  bool
 	Dump    string // state of the machine after the call
+	LQ      uint64 // sync mode: the driver's lastQuorum when the call was made
 }
 
 type epoch struct {
@@ -316,11 +337,25 @@ type epoch struct {
 	timers   []types.Timeout
 
 	noDumps    bool
+	gossip     bool   // the input being fed is a gossiped message (not a fetched block)
 	noSentinel bool   // feed does not wait for the select loop (the sentinel would replace `actions`)
 	failAt     int    // fault injection: the effect with this index fails (flush error / commit refused); -1 = none
 	failedAt   int    // number of effects performed when the injected fault hit (-1: not yet)
 	closedSnap string // image after a regular stop (Run returned, store closed)
 	inner      driver.CommitListener[V, H]
+	side       *syncSide // sync mode (cfg.Sync)
+	// mode "store": the harness is the block persister behind the real commit listener. `persisted`
+	// is the last height whose block it acknowledged — what blockchain.Height() is after a restart.
+	persisted   atomic.Uint64
+	heightCalls atomic.Uint64 // calls of stateMachine.Height() by the driver (a handshake, see feed "se")
+	// fault kinds "the process is told to stop while a commit is in progress": 1 = the persister is
+	// gone and the context cancelled before the block can be handed over (first select of OnCommit),
+	// 2 = the persister has taken the block and the context is cancelled before it acknowledges
+	// (second select of OnCommit)
+	cancelInCommit int
+	cancelOnBlock  atomic.Bool
+	persistStop    chan struct{}
+	persistGone    chan struct{}
 
 	curInput         int
 	replayDone       bool
@@ -351,7 +386,7 @@ func (ep *epoch) boundary() {
 // record is called by every sink BEFORE it performs its effect.
 func (ep *epoch) record(tok string) {
 	ep.boundary()
-	e := Effect{Tok: tok, Call: len(ep.calls) - 1, Input: ep.curInput}
+	e := Effect{Tok: tok, Pend: ep.pending, Call: len(ep.calls) - 1, Input: ep.curInput}
 	if e.visible() && ep.pending != 0 {
 		ep.unflushedVisible = append(ep.unflushedVisible, tok)
 	}
@@ -362,12 +397,18 @@ func (ep *epoch) record(tok string) {
 
 type smWrap struct{ ep *epoch }
 
-func (w *smWrap) Height() types.Height { return w.ep.real.Height() }
+func (w *smWrap) Height() types.Height {
+	w.ep.heightCalls.Add(1)
+	return w.ep.real.Height()
+}
 
 func (w *smWrap) call(kind, in string, replay bool, f func() []actions.Action[V, H, A]) []actions.Action[V, H, A] {
 	ep := w.ep
 	hb := uint64(ep.real.Height())
 	ep.calls = append(ep.calls, smCall{Kind: kind, In: in, HBefore: hb, Input: ep.curInput, Replay: replay})
+	if ep.side != nil && ep.side.lq != nil {
+		ep.calls[len(ep.calls)-1].LQ = uint64(*ep.side.lq)
+	}
 	acts := f()
 	c := &ep.calls[len(ep.calls)-1]
 	c.HAfter = uint64(ep.real.Height())
@@ -376,7 +417,7 @@ func (w *smWrap) call(kind, in string, replay bool, f func() []actions.Action[V,
 	// produced it (vote counted, nothing logged) is what this harness looks at.
 	out := acts[:0:0]
 	for _, a := range acts {
-		if _, isSync := a.(*actions.TriggerSync); isSync {
+		if _, isSync := a.(*actions.TriggerSync); isSync && ep.side == nil {
 			c.Sync = actionTok(a)
 			continue
 		}
@@ -408,6 +449,11 @@ func (w *smWrap) ProcessProposal(p *starknet.Proposal) []actions.Action[V, H, A]
 }
 
 func (w *smWrap) ProcessPrevote(p *starknet.Prevote) []actions.Action[V, H, A] {
+	if w.ep.side != nil && p.Sender == pseudoSender {
+		// driver.listen must have dropped it (isSyncPseudoSender); the extractor never fabricates prevotes
+		w.ep.side.reached = append(w.ep.side.reached, entryTok((*wal.Prevote[H, A])(p)))
+		return nil
+	}
 	if p == w.ep.sentinel {
 		w.ep.sentinelCh <- struct{}{}
 		return nil
@@ -417,6 +463,9 @@ func (w *smWrap) ProcessPrevote(p *starknet.Prevote) []actions.Action[V, H, A] {
 }
 
 func (w *smWrap) ProcessPrecommit(p *starknet.Precommit) []actions.Action[V, H, A] {
+	if w.ep.side != nil && p.Sender == pseudoSender && w.ep.gossip {
+		w.ep.side.reached = append(w.ep.side.reached, entryTok((*wal.Precommit[H, A])(p)))
+	}
 	return w.call("c", entryTok((*wal.Precommit[H, A])(p)), false,
 		func() []actions.Action[V, H, A] { return w.ep.real.ProcessPrecommit(p) })
 }
@@ -426,8 +475,13 @@ func (w *smWrap) ProcessWAL(e wal.Entry[V, H, A]) []actions.Action[V, H, A] {
 }
 
 func (w *smWrap) ProcessSync(p *starknet.Proposal, pc []starknet.Precommit) []actions.Action[V, H, A] {
-	return w.call("sync", "sync", false, func() []actions.Action[V, H, A] { return w.ep.real.ProcessSync(p, pc) })
+	toks := []string{entryTok((*wal.Proposal[V, H, A])(p))}
+	for i := range pc {
+		toks = append(toks, entryTok((*wal.Precommit[H, A])(&pc[i])))
+	}
+	return w.call("sync", strings.Join(toks, " "), false, func() []actions.Action[V, H, A] { return w.ep.real.ProcessSync(p, pc) })
 }
+
 
 // ---- log store wrapper ----------------------------------------------------------------------
 
@@ -466,6 +520,10 @@ func (s *storeWrap) Flush() error {
 
 func (s *storeWrap) SetWALEntry(e wal.Entry[V, H, A]) error {
 	tok := entryTok(e)
+	if s.ep.failAt == len(s.ep.effects) && s.ep.failedAt < 0 {
+		s.ep.failedAt = len(s.ep.effects)
+		return fmt.Errorf("injected: SetWALEntry fails")
+	}
 	s.ep.record("append/" + tok)
 	err := s.real.SetWALEntry(e)
 	if err != nil {
@@ -549,14 +607,32 @@ type commitSink struct{ ep *epoch }
 func (c commitSink) OnCommit(ctx context.Context, h types.Height, v V) bool {
 	if c.ep.failAt == len(c.ep.effects) && c.ep.failedAt < 0 {
 		c.ep.failedAt = len(c.ep.effects)
-		return false
+		if c.ep.cancelInCommit == 0 || c.ep.inner == nil {
+			return false
+		}
+		// the process is told to stop while the commit is in progress; the real commit listener must
+		// answer false (the block is not persisted)
+		if c.ep.cancelInCommit == 1 {
+			close(c.ep.persistStop)
+			<-c.ep.persistGone
+			c.ep.cancel()
+		} else {
+			c.ep.cancelOnBlock.Store(true)
+		}
 	}
 	if c.ep.inner != nil {
 		// the real commit listener: looks the build result up in the proposal store, hands the
 		// block to the persister (this harness acknowledges it), finalises the height in the store
 		if !c.ep.inner.OnCommit(ctx, h, v) {
-			c.ep.errs = append(c.ep.errs, fmt.Sprintf("commitlistener: refused height %d (no build result in the proposal store)", uint64(h)))
+			if c.ep.failedAt < 0 {
+				c.ep.errs = append(c.ep.errs, fmt.Sprintf("commitlistener: refused height %d (no build result in the proposal store)", uint64(h)))
+			}
 			return false
+		}
+		if c.ep.persisted.Load() != uint64(h) {
+			// OnCommit answered true (the driver will prune the log of this height) although the block
+			// was never acknowledged by the persister: after a restart the chain is still below h
+			c.ep.errs = append(c.ep.errs, fmt.Sprintf("unpersisted: OnCommit returned true for height %d, the persister has acknowledged up to %d", uint64(h), c.ep.persisted.Load()))
 		}
 	}
 	c.ep.record(fmt.Sprintf("deliver:%d:%s", uint64(h), valS(&v)))
@@ -628,7 +704,12 @@ func syncChan(d any) chan p2psync.BlockBody {
 	return nil
 }
 
-const stepDeadline = 120 * time.Second
+var stepDeadline = func() time.Duration {
+	if d, err := time.ParseDuration(os.Getenv("C13_DEADLINE")); err == nil && d > 0 {
+		return d // debugging aid
+	}
+	return 120 * time.Second
+}()
 
 var errNoTimeoutChannel = fmt.Errorf("the driver's timeout channel was not found (reflect lookup by type): timeouts cannot be injected")
 
@@ -647,6 +728,8 @@ func startEpoch(cfg *Cfg, base, image string, chain, epochNo uint64, failAt int)
 			return nil, err
 		}
 	}
+	ep.persisted.Store(chain)
+	ep.persistStop, ep.persistGone = make(chan struct{}), make(chan struct{})
 	ep.app = &app{mode: cfg.AppMode, epoch: epochNo, height: chain + 1, cfg: cfg}
 	if cfg.AppMode == "store" {
 		ep.app.store = &proposal.ProposalStore[H]{}
@@ -661,17 +744,34 @@ func startEpoch(cfg *Cfg, base, image string, chain, epochNo uint64, failAt int)
 	sw.snapshot()
 	s := starknet.Prevote{MessageHeader: starknet.MessageHeader{Sender: felt.FromUint64[A](0xdead)}}
 	ep.sentinel = &s
+	var fetcher *p2psync.BlockFetcher
+	var extractor *consensusSync.MessageExtractor[V, H, A]
+	if cfg.Sync {
+		// the select loop is awaited with a prevote of the sync pseudo-sender: the driver drops it
+		// (`continue`) without calling the state machine and without touching its `actions` variable
+		s.Sender = pseudoSender
+		ep.side = &syncSide{store: &proposal.ProposalStore[H]{}, release: make(chan struct{})}
+		var err error
+		if fetcher, err = newFetcher(ep.side); err != nil {
+			return nil, err
+		}
+		ex := consensusSync.New[V, H, A](cfg, toValueOf, ep.side.store)
+		extractor = &ex
+	}
 	d := driver.New[V, H, A](log.NewNopZapLogger(), sw, &smWrap{ep}, commitSink{ep},
 		p2p.Broadcasters[V, H, A]{ProposalBroadcaster: bcProposal{ep}, PrevoteBroadcaster: bcPrevote{ep}, PrecommitBroadcaster: bcPrecommit{ep}},
 		p2p.Listeners[V, H, A]{ProposalListener: lst[*starknet.Proposal]{ep.propCh}, PrevoteListener: lst[*starknet.Prevote]{ep.prevCh},
 			PrecommitListener: lst[*starknet.Precommit]{ep.precCh}},
-		nil, nil,
+		fetcher, extractor,
 		func(step types.Step, round types.Round) time.Duration {
 			ep.record(fmt.Sprintf("timer:%d:%d", step, round))
 			return 24 * time.Hour
 		})
 	ep.timeoutCh = timeoutChan(&d)
 	ep.syncCh = syncChan(&d)
+	if ep.side != nil {
+		ep.side.lq = lastQuorumPtr(&d)
+	}
 	ctx, cancel := context.WithCancel(context.Background())
 	ep.cancel = cancel
 	if ep.inner != nil {
@@ -679,7 +779,15 @@ func startEpoch(cfg *Cfg, base, image string, chain, epochNo uint64, failAt int)
 			for {
 				select {
 				case cb := <-ep.inner.Listen():
+					if ep.cancelOnBlock.Load() {
+						cancel() // taken but never acknowledged: the process is going down
+						return
+					}
+					ep.persisted.Store(cb.Block.Number)
 					cb.Persisted <- nil
+				case <-ep.persistStop:
+					close(ep.persistGone)
+					return
 				case <-ctx.Done():
 					return
 				}
@@ -711,6 +819,19 @@ func (ep *epoch) sync() error {
 		return fmt.Errorf("driver stopped: %v", err)
 	case <-time.After(stepDeadline):
 		return fmt.Errorf("driver hangs (no select within %s)", stepDeadline)
+	}
+	if ep.side != nil {
+		// taken by the select loop and dropped there; one more round makes sure the loop is back in
+		// its select (the send can only complete at a select)
+		select {
+		case ep.prevCh <- ep.sentinel:
+			return nil
+		case err := <-ep.done:
+			ep.done <- err
+			return fmt.Errorf("driver stopped: %v", err)
+		case <-time.After(stepDeadline):
+			return fmt.Errorf("driver hangs (no select within %s)", stepDeadline)
+		}
 	}
 	select {
 	case <-ep.sentinelCh:
@@ -753,6 +874,65 @@ func (ep *epoch) feed(idx int, in Input) error {
 		case ep.precCh <- m:
 			sent = true
 		case <-dl:
+		}
+	case "sb":
+		// a fetched block arrives on the driver's sync channel
+		if ep.syncCh == nil {
+			return fmt.Errorf("the driver's sync channel was not found")
+		}
+		select {
+		case ep.syncCh <- blockBody(in.H, in.Val, in.Sender):
+			sent = true
+		case <-dl:
+		}
+		// the channel is buffered: wait until the select loop has taken the block (then the sentinel
+		// below is only taken after the block has been processed)
+		for sent && len(ep.syncCh) > 0 {
+			select {
+			case <-dl:
+				return fmt.Errorf("driver does not take the fetched block")
+			default:
+				time.Sleep(50 * time.Microsecond)
+			}
+		}
+	case "se":
+		// the block fetcher reports a failed fetch; the branch calls stateMachine.Height() (through
+		// syncCurrentHeight): when that has happened the report has been taken
+		if ep.syncCh == nil {
+			return fmt.Errorf("the driver's sync channel was not found")
+		}
+		before := ep.heightCalls.Load()
+		select {
+		case ep.syncCh <- p2psync.BlockBody{Err: fmt.Errorf("injected: block fetch failed")}:
+			sent = true
+		case <-dl:
+		}
+		for sent && ep.heightCalls.Load() == before {
+			select {
+			case <-dl:
+				return fmt.Errorf("driver does not take the fetch error")
+			default:
+				time.Sleep(50 * time.Microsecond)
+			}
+		}
+	case "pv", "pc":
+		// a gossiped prevote / precommit that claims to come from the sync pseudo-sender
+		ep.gossip = true
+		defer func() { ep.gossip = false }()
+		hd := in.header()
+		hd.Sender = pseudoSender
+		if in.K == "pv" {
+			select {
+			case ep.prevCh <- &starknet.Prevote{MessageHeader: hd, ID: in.id()}:
+				sent = true
+			case <-dl:
+			}
+		} else {
+			select {
+			case ep.precCh <- &starknet.Precommit{MessageHeader: hd, ID: in.id()}:
+				sent = true
+			case <-dl:
+			}
 		}
 	case "syncerr":
 		// the block fetcher reports a failed fetch (driver.listen, sync branch with p.Err != nil)
@@ -803,6 +983,12 @@ func (ep *epoch) stopVia(closeListener bool) {
 	} else if ep.cancel != nil {
 		ep.cancel()
 	}
+	if ep.side != nil {
+		if closeListener && ep.cancel != nil {
+			ep.cancel()
+		}
+		ep.side.releaseAll()
+	}
 	select {
 	case err := <-ep.done:
 		if err != nil {
@@ -820,4 +1006,9 @@ func (ep *epoch) stopVia(closeListener bool) {
 	}
 }
 
-func (ep *epoch) cleanup() { os.RemoveAll(ep.base) }
+func (ep *epoch) cleanup() {
+	if ep.side != nil {
+		ep.side.releaseAll()
+	}
+	os.RemoveAll(ep.base)
+}
